@@ -58,3 +58,43 @@ Theorem C08_slave_only_switch_on : forall i i1 o1 es i2,
   run_state i1 es = Some i2 ->
   no_master (i_ports i1) /\ so_inv i2.
 Proof. exact slave_only_switch_on. Qed.
+
+(** C08_main: for every valid set-up and EVERY valid event list the model's own
+    trace satisfies the complete oracle ok_C08: at most one slave, master-only
+    never slave, slave-only enforcement after a BMCA run, is_steering() /
+    is_master() agreeing with the state, and - per call and per port - every
+    emitted frame decodes under the modelled parser, Announce / Sync / Follow_Up /
+    Delay_Resp only from a port that was master before the call, Delay_Req only
+    from the slave port, sync / delay measurements only on the slave port, clock
+    properties only for the port that is slave afterwards.  (ok_C08 is the very
+    function evaluated on implementation traces.) *)
+From SV Require Import Port.MainC08 Port.MainC08Role.
+Theorem C08_main : forall s es rel,
+  setup_valid s -> Forall event_valid es ->
+  exists i o, init s = Ok (i, o) /\ ok_C08 (mkCase s es rel (Some o) (run i es)) = true.
+Proof. exact ok_C08_model. Qed.
+(** the state part alone (a weakening of the oracle) *)
+Theorem C08_oracle_weakening : forall c, ok_C08 c = true -> ok_C08_states c = true.
+Proof. exact ok_C08_implies_states. Qed.
+Theorem C08_main_states : forall s es rel,
+  setup_valid s -> Forall event_valid es ->
+  exists i o, init s = Ok (i, o) /\ ok_C08_states (mkCase s es rel (Some o) (run i es)) = true.
+Proof. exact ok_C08_states_model. Qed.
+
+(** Frames are emitted by the seven emitters only (send_sync, send_announce,
+    send_delay_request, handle_sync_timestamp, handle_delay_req,
+    handle_pdelay_req, handle_pdelay_response_timestamp): everything received on
+    the general interface (Announce, Follow_Up, Delay_Resp,
+    Pdelay_Resp_Follow_Up, ...), every measurement and the announce receipt
+    timer produce no frame at all, whatever the state and the input. *)
+From SV Require Import Port.Frames.
+Theorem C08_general_receive_never_sends : forall p d ti frame p' d' o,
+  handle_general_receive p d ti frame = Ok (p', d', o) -> sent_frames o = [].
+Proof. exact general_receive_never_sends. Qed.
+Theorem C08_slave_side_never_sends : forall p d p' d' o,
+  (forall h w t, handle_sync p d h w t = Ok (p', d', o) -> sent_frames o = []) /\
+  (forall id t, handle_delay_timestamp p d id t = Ok (p', d', o) -> sent_frames o = []) /\
+  (forall id t, handle_pdelay_timestamp p d id t = Ok (p', d', o) -> sent_frames o = []) /\
+  (forall h w r t, handle_peer_delay_response p d h w r t = Ok (p', d', o) -> sent_frames o = []) /\
+  (handle_announce_receipt_timer p d = Ok (p', d', o) -> sent_frames o = []).
+Proof. exact slave_side_never_sends. Qed.
